@@ -73,4 +73,9 @@ CLAIMED['C03'] = {
     'text': 'For every signal and cap the classic and masked sifts are proved to build column k by (masked) single-IMF extraction from the input minus the first k columns and never to exceed the cap; since the extraction is a function of its input the capped run is a prefix of the uncapped one. complete_ensemble_sift is proved never to exceed the cap; ensemble and second-layer results have the documented shapes. Finiteness is bounded.',
     'note': PROOF_NOTE + 'get_next_imf / get_next_imf_mask / member sifts by contract (modular).',
 }
+CLAIMED['C05'] = {
+    'technique': 'deductive: call-site obligation + postcondition of _find_extrema against an assumed argrelextrema contract parameterised by comparator and order; parabolic vertex bound; get_padded_extrema loop invariant, variant and postcondition over assumed np.pad contracts; interp_envelope grid-alignment obligation at the interpolant evaluation and per-sample postcondition; VCs from the real source discharged by z3/cvc5; bounded stand-in: exhaustive sequences <= 7/9 over 3 levels x pads x parabolic x methods x modes against the rebuilt interpolant',
+    'text': 'Extrema are proved to be exactly the strict interior maxima/minima (the strict comparator and order 1 are call-site obligations); padding is proved to keep the detected extrema, order everything strictly, add only outside, cover both record ends and terminate; every envelope is proved to have one value per sample equal to the interpolant at that sample\'s integer time, with and without parabolic refinement. That the scipy interpolants pass through their knots is assumed / bounded.',
+    'note': PROOF_NOTE + 'argrelextrema, np.pad (default modes) and the scipy interpolants are assumed contracts; custom np.pad options bounded only.',
+}
 PENDING_REASON = {}
